@@ -1,6 +1,7 @@
 import Rp2.Proofs.Truncate
 import Rp2.Proofs.ComputeWindow
 import Rp2.Proofs.Prefix
+import Rp2.Proofs.ReconcileToDate
 /-! # C09 — later transactions never change results already computed for earlier periods -/
 namespace Rp2.C09
 open Rp2
@@ -37,4 +38,18 @@ theorem model_truncated_history_same_fractions (sched : List (Int × Method)) (i
 theorem stable_sort_commutes_with_filter {α : Type} (le : α → α → Bool) (trans : ∀ (a b c : α), le a b → le b c → le a c)
     (total : ∀ (a b : α), le a b || le b a) (q : α → Bool) (l : List α) :
     (l.mergeSort le).filter q = (l.filter q).mergeSort le := filter_mergeSort le trans total q l
+/-- **C09 on the `compute` model, the whole computation** ("a run limited by to-date T reports the same figures as a run on the history
+    truncated at T"): the run with to-date `T` and the run on the truncated history (no date filter) produce the same numbered fractions —
+    pairing, amounts, `k/n` labels —, the same yearly summary lines, the same account balances and the same average price. Hypotheses:
+    table in sheet order; `SameInstantSameYear` (F7); monotone local dates (F6) for lots, events, lot/event pairs, fractions and the
+    replayed transactions. -/
+theorem model_to_date_run_equals_truncated_run (asset : String) (acctName : Nat → String) (period : Int) (allowNeg : Bool) (T : Int)
+    (sched : List (Int × Method)) (ins : List InTx) (outs : List OutTx) (intras : List IntraTx) (cd : Computed)
+    (hord : SheetOrder ins) (hy : SameInstantSameYear (taxableEvents ins outs intras)) (hm : DatesMonotone ins outs intras)
+    (hmb : (sortByTs (fun t : AnyTx => t.ts.us) (ins.map AnyTx.i ++ intras.map AnyTx.x ++ outs.map AnyTx.o)).Pairwise (fun a b => a.ts.day ≤ b.ts.day))
+    (hmf : ∀ fs, computeFractions sched ins outs intras = .ok fs → fs.Pairwise (fun a b => a.ev.ts.day ≤ b.ev.ts.day))
+    (h : compute asset acctName period allowNeg none (some T) sched ins outs intras = .ok cd) :
+    ∃ cd', compute asset acctName period allowNeg none none sched (ins.filter (keepIn T)) (outs.filter (keepOut T)) (intras.filter (keepIntra T)) = .ok cd' ∧
+      cd'.fracs = cd.fracs ∧ cd'.yearly = cd.yearly ∧ cd'.bals = cd.bals ∧ cd'.price = cd.price :=
+  compute_to_date_eq_truncated asset acctName period allowNeg T sched ins outs intras cd hord hy hm hmb hmf h
 end Rp2.C09
